@@ -412,3 +412,69 @@ func isAnonOf(g, f *ssa.Function) bool {
 	}
 	return false
 }
+
+// DELEGATE-ONCE: a function whose callee de-duplicates ACROSS the list it is
+// given (a seen-set that lives for one call) hands it the whole list in one
+// call.  Calling it once per element and concatenating the results makes the
+// de-duplication per element: what two inputs share is reported twice.
+func ruleDelegateOnce(w *World, r *Report, wrapper, callee string) {
+	r.Rule("DELEGATE-ONCE", "a wrapper of a list conversion that de-duplicates across its input hands the whole list over in one call: the callee is not called once per element with the results concatenated (its seen-set lives for one call only)")
+	f, g := lookupByName(w, wrapper), lookupByName(w, callee)
+	if f == nil || g == nil {
+		r.add("DELEGATE-ONCE", wrapper, "?", Unresolved, "function not found")
+		return
+	}
+	calls := callsTo(f, func(x *ssa.Function) bool { return x == g })
+	for _, a := range f.AnonFuncs {
+		calls = append(calls, callsTo(a, func(x *ssa.Function) bool { return x == g })...)
+	}
+	if len(calls) == 0 {
+		r.add("DELEGATE-ONCE", wrapper, w.Pos(f.Pos()), Undecided, "no call of "+callee+" found")
+		return
+	}
+	for i, c := range calls {
+		key := fmt.Sprintf("%s / call#%d", wrapper, i+1)
+		loops := naturalLoops(c.Parent())
+		il := innermostLoop(loops, c.Block())
+		if il == nil {
+			r.add("DELEGATE-ONCE", key, w.Pos(c.Pos()), Discharged, "one call outside every loop")
+			continue
+		}
+		// inside a loop: are its results accumulated by a spread append?
+		spread := false
+		res := extractOf(c, 0)
+		if res != nil && res.Referrers() != nil {
+			for _, ref := range *res.Referrers() {
+				if ap, ok := ref.(*ssa.Call); ok && builtinName(ap) == "append" {
+					if _, sp := appendedElems(ap); sp != nil && resolve(sp) == ssa.Value(res) {
+						spread = true
+					}
+				}
+			}
+		}
+		// a de-duplication of the concatenation afterwards (a set helper, a map) restores it
+		dedup := false
+		instrs(c.Parent(), func(in ssa.Instruction) {
+			switch x := in.(type) {
+			case *ssa.MakeMap:
+				dedup = true
+			case *ssa.Call:
+				if h := calleeOf(x); h != nil && h != g && w.InModule(h) && distinctFor(w).fnReturnsDistinct(h) {
+					dedup = true
+				}
+				if calleeIs(x, "slices", "Compact") || calleeIs(x, "slices", "CompactFunc") {
+					dedup = true
+				}
+			}
+		})
+		if spread && dedup {
+			r.add("DELEGATE-ONCE", key, w.Pos(c.Pos()), Undecided, "the callee is called per element and the wrapper de-duplicates by other means; not followed")
+			continue
+		}
+		if spread {
+			r.add("DELEGATE-ONCE", key, w.Pos(c.Pos()), Violated, callee+" is called inside a loop and its results are concatenated: the de-duplication it performs across its input list now covers one call (one element) only, so what two inputs share is reported twice")
+		} else {
+			r.add("DELEGATE-ONCE", key, w.Pos(c.Pos()), Undecided, "the call sits inside a loop; how its results are combined was not read")
+		}
+	}
+}
